@@ -23,13 +23,18 @@ RULE = ("catalogue (about 40 malformed strings: stray/unbalanced brackets, empty
         "(created or refused); about 65 addresses per run go to the network: tcp/tls/https(+pipeline) through a harness "
         "SOCKS5 proxy (CONNECT destination, SNI, Host header, certificate issued for one chosen name accepted or not), "
         "udp/quic/doq/h3 to loopback sockets on 127.0.0.1-3 and ::1 x {url port, dial_addr port, default port} (which "
-        "socket receives the first datagram). A case is non-trivial when an IPv6 form, a dial_addr or an omitted port "
+        "socket receives the first datagram), and about 25 of them with Opt.Bootstrap pointing at a harness DNS server that answers every name "
+        "with a chosen loopback address (tls/https/quic/doq/h3 with hostname URL host and/or hostname dial_addr, with and without port: the "
+        "connection must arrive at <answered address>:<port written or scheme default>, the server must have been asked for exactly the host "
+        "written, IP literals must not be resolved; tcp/udp with a hostname must still be refused); Opt.Bootstrap strings of every form go to "
+        "NewUpstream (created or refused). A case is non-trivial when an IPv6 form, a dial_addr or an omitted port "
         "is involved; distinct = distinct Gallina literal")
 ASSUMPTIONS = [
     "net/url.Parse decides Scheme and Host as transcribed in Model.Addr.url_parse for strings over letters, digits and . - _ + : [ ] / "
     "(no userinfo, query, fragment, escapes); outside that alphabet nothing is claimed",
     "net.SplitHostPort, strconv.ParseUint(s,10,16), netip.ParseAddr as transcribed from Go 1.23 (each compared with the real function on every generated string)",
-    "Opt.Bootstrap is empty and Opt.TLSConfig.ServerName is empty; name resolution of hostnames happens later, outside NewUpstream",
+    "Opt.TLSConfig.ServerName is empty; without Opt.Bootstrap the resolution of hostnames is the system resolver's (not observed); "
+    "with Opt.Bootstrap the bootstrap package is trusted to return <first A/AAAA answer>:<port it was given> (observed end to end on the bootstrap cases)",
     "the dialled address is net.JoinHostPort(host, port) of the pair the model computes: observed through SOCKS5 / loopback sockets "
     "on the few dozen network cases, not proved",
     "for quic/doq/h3 only the destination of the first datagram is observed, not the TLS name",
@@ -43,7 +48,8 @@ LEVEL_TEXT = ("Theorems in coq/Properties/C18.v, for ALL strings of the grammar 
               "bracketed, bracketed with port; any decimal port 1..65535; any of the 9 schemes or none; any dial_addr; any path): "
               "NewUpstream's model dials exactly the host of dial_addr if given else of the URL, on the port written next to it "
               "else the scheme default, with the URL host as TLS name; refusals (non-IP where an IP is needed, port text that is "
-              "not a 16 bit decimal, unknown scheme, bare IPv6 with a non-decimal last group) happen at creation; and for ALL "
+              "not a 16 bit decimal, unknown scheme, bare IPv6 with a non-decimal last group) happen at creation; with Opt.Bootstrap the "
+              "host handed to the resolver and the port are the same ones (c18_bootstrap_keeps_port); and for ALL "
               "strings whatsoever an accepted (host, port) is literally what the string says (reject_or_exact). The model is run "
               "inside Coq on every case the Go driver observed on the real helpers, on NewUpstream and on the network.")
 LEVEL_NOTE = ("Trusted: Coq kernel + vm_compute; hand-written model tied to the code by the differential run; transcriptions of "
